@@ -257,7 +257,7 @@ func rootType(e excellent.Expression) string {
 var nameSafe = []string{"foo", "bar", "contact", "x", "Foo", "FOO", "bAr", "_a", "x1", "é", "Éa", "名前", "ünï", "K", "truex", "nullable", "t"}
 var funcNames = []string{"upper", "LOWER", "Title", "abs", "max", "min", "if", "and", "or", "text", "number", "array", "object", "join", "split",
 	"default", "count", "text_length", "round", "mean", "sum", "reverse", "concat", "is_error", "word_count", "clean", "foreach", "filter", "boolean", "char", "code"}
-var ctxKeys = []string{"foo", "bar", "contact", "x", "_a", "x1", "é", "éa", "名前", "ünï", "t", "k", "webhook", "results", "id"}
+var ctxKeys = []string{"foo", "bar", "contact", "x", "_a", "x1", "é", "éa", "名前", "ünï", "t", "k", "webhook", "results", "id", "item"}
 
 type genCfg struct {
 	rareBad bool // allow the shapes of the known findings (numeric lookup after numeric lookup, value ending in a backslash next to another literal, Cherokee names)
@@ -1393,16 +1393,16 @@ func main() {
 				ctx2 := maps.Clone(ctx)
 				delete(ctx2, from)
 				v, has := ctx[from]
-				if !has {
-					return ctx2
-				}
+				root := strings.TrimSuffix(strings.TrimSuffix(to, ".1"), ".json")
 				switch {
+				case !has:
+					delete(ctx2, root) // nothing under the old name, so nothing under the new one
 				case strings.HasSuffix(to, ".1"):
-					ctx2[strings.TrimSuffix(to, ".1")] = types.NewXArray(types.NewXText("pad"), v)
+					ctx2[root] = types.NewXArray(types.NewXText("pad"), v)
 				case strings.HasSuffix(to, ".json"):
-					ctx2[strings.TrimSuffix(to, ".json")] = types.NewXObject(map[string]types.XValue{"json": v})
+					ctx2[root] = types.NewXObject(map[string]types.XValue{"json": v})
 				default:
-					ctx2[to] = v
+					ctx2[root] = v
 				}
 				return ctx2
 			}
